@@ -368,15 +368,60 @@ func (t *npmTableClient) MatchingVersions(ctx context.Context, vk resolve.Versio
 	return nil, npmErrUnrecorded
 }
 
-// ---------------------------------------------------------------- one resolution and its npmObservable
+// ---------------------------------------------------------------- one resolution and its observable
 
 type npmRun struct {
-	status string // ok, err, panic
-	g      *resolve.Graph
-	tree   []npm.VerifTreeNode
+	status  string // ok, err, panic, diverged, timeout
+	g       *resolve.Graph
+	tree    []npm.VerifTreeNode
+	calls   int
+	retried bool
 }
 
-func npmResolve(c resolve.Client, root resolve.VersionKey) (out npmRun) {
+// npmBudgetClient counts client calls and cancels the resolution when a budget is exceeded.
+// The install loop of Resolve does not terminate on some universes (alias or bundle cycles,
+// known/C06.jsonl N-C06-3); it polls its context once per node, and an ever growing tree keeps
+// asking the client, so the call count is a load-independent way to cut such a resolution off.
+type npmBudgetClient struct {
+	inner  resolve.Client
+	calls  int
+	cancel context.CancelFunc
+}
+
+// npmCallBudget is far above what a terminating resolution of a generated universe needs.
+const npmCallBudget = 10000
+
+func (b *npmBudgetClient) tick() {
+	b.calls++
+	if b.calls == npmCallBudget {
+		b.cancel()
+	}
+}
+func (b *npmBudgetClient) Version(ctx context.Context, vk resolve.VersionKey) (resolve.Version, error) {
+	b.tick()
+	return b.inner.Version(ctx, vk)
+}
+func (b *npmBudgetClient) Versions(ctx context.Context, pk resolve.PackageKey) ([]resolve.Version, error) {
+	b.tick()
+	return b.inner.Versions(ctx, pk)
+}
+func (b *npmBudgetClient) Requirements(ctx context.Context, vk resolve.VersionKey) ([]resolve.RequirementVersion, error) {
+	b.tick()
+	return b.inner.Requirements(ctx, vk)
+}
+func (b *npmBudgetClient) MatchingVersions(ctx context.Context, vk resolve.VersionKey) ([]resolve.Version, error) {
+	b.tick()
+	return b.inner.MatchingVersions(ctx, vk)
+}
+
+// Wall-clock deadlines are only a safety net: a root that exceeds the first one is resolved
+// once more with the second, so that a loaded machine does not change which roots are judged.
+const (
+	npmTimeout      = 400 * time.Millisecond
+	npmTimeoutRetry = 4 * time.Second
+)
+
+func npmResolveOnce(c resolve.Client, root resolve.VersionKey, deadline time.Duration) (out npmRun) {
 	defer func() {
 		if r := recover(); r != nil {
 			if hb, ok := r.(harnessBug); ok {
@@ -386,21 +431,36 @@ func npmResolve(c resolve.Client, root resolve.VersionKey) (out npmRun) {
 		}
 	}()
 	var tree []npm.VerifTreeNode
-	tctx, cancel := context.WithTimeout(context.Background(), npmTimeout)
-	defer cancel()
-	ctx := npm.VerifWithTreeSink(tctx, func(t []npm.VerifTreeNode) { tree = t })
-	g, err := npm.NewResolver(c).Resolve(ctx, root)
+	tctx, cancelT := context.WithTimeout(context.Background(), deadline)
+	defer cancelT()
+	bctx, cancelB := context.WithCancel(tctx)
+	defer cancelB()
+	bc := &npmBudgetClient{inner: c, cancel: cancelB}
+	ctx := npm.VerifWithTreeSink(bctx, func(t []npm.VerifTreeNode) { tree = t })
+	g, err := npm.NewResolver(bc).Resolve(ctx, root)
+	if err != nil && bc.calls >= npmCallBudget {
+		return npmRun{status: "diverged", calls: bc.calls}
+	}
 	if err != nil && tctx.Err() != nil {
 		// the main loop polls the context: the resolution was still installing nodes
-		return npmRun{status: "timeout"}
+		return npmRun{status: "timeout", calls: bc.calls}
 	}
 	if err != nil {
 		if os.Getenv("VERIF_DEBUG") != "" {
 			fmt.Fprintln(os.Stderr, "resolve error:", err)
 		}
-		return npmRun{status: "err"}
+		return npmRun{status: "err", calls: bc.calls}
 	}
-	return npmRun{status: "ok", g: g, tree: tree}
+	return npmRun{status: "ok", g: g, tree: tree, calls: bc.calls}
+}
+
+func npmResolve(c resolve.Client, root resolve.VersionKey) npmRun {
+	r := npmResolveOnce(c, root, npmTimeout)
+	if r.status == "timeout" {
+		r = npmResolveOnce(c, root, npmTimeoutRetry)
+		r.retried = true
+	}
+	return r
 }
 
 func npmSortedKeys(m map[string]int) []string {
@@ -429,33 +489,16 @@ func npmGidIndex(tree []npm.VerifTreeNode, n int) []int {
 	return idx
 }
 
-func npmNodeErrKind(text string) int {
-	switch {
-	case strings.HasPrefix(text, "could not find a version"):
-		return 1
-	case strings.HasPrefix(text, "cannot install two versions"):
-		return 2
-	case strings.HasPrefix(text, "unreachable version"):
-		return 3
-	}
-	return 0
-}
+// npmMark separates the compared projection (graph and install tree, the property's
+// observables) from the diagnostic fields, which are shown when the compared part differs.
+const npmMark = "|"
 
-func npmGraphErrItems(g *resolve.Graph) []string {
-	if g.Error == "" {
-		return nil
+// npmCompared is the compared part of a printed observable.
+func npmCompared(s string) string {
+	if i := strings.Index(s, " \""+npmMark+"\" "); i >= 0 {
+		return s[:i]
 	}
-	var out []string
-	for _, it := range strings.Split(g.Error, ",") {
-		// "unused bundled version NAME VERSION": only the name and the version are observed
-		f := strings.Fields(it)
-		if len(f) >= 2 {
-			it = f[len(f)-2] + " " + f[len(f)-1]
-		}
-		out = append(out, it)
-	}
-	sort.Strings(out)
-	return out
+	return s
 }
 
 func npmObservable(r npmRun) sx.V {
@@ -463,12 +506,13 @@ func npmObservable(r npmRun) sx.V {
 		return sx.L(sx.Sym(r.status))
 	}
 	g := r.g
-	var tn []sx.V
+	var tn, diag []sx.V
 	for _, t := range r.tree {
 		tn = append(tn, sx.L(sx.Int(t.Parent), sx.B(t.Pkg.Name), npmSxVKey(t.Version),
 			sx.Bool(t.ID != 0 || t.Parent == -1), sx.Bool(t.Bundled),
-			npmSxStrings(npmSortedKeys(t.Children)), npmSxStrings(npmSortedKeys(t.Alias)),
-			npmSxStrings(t.Protected), npmSxStrings(t.AliasProtected)))
+			npmSxStrings(npmSortedKeys(t.Children)), npmSxStrings(npmSortedKeys(t.Alias))))
+		// the reservation bookkeeping is not an observable of the property
+		diag = append(diag, sx.L(npmSxStrings(t.Protected), npmSxStrings(t.AliasProtected)))
 	}
 	idx := npmGidIndex(r.tree, len(g.Nodes))
 	var es []sx.V
@@ -481,15 +525,16 @@ func npmObservable(r npmRun) sx.V {
 	var ne []sx.V
 	for i, n := range g.Nodes {
 		for _, e := range n.Errors {
-			// the error text is not an npmObservable: node and requirement only
+			// node and requirement only; no error text is read anywhere
 			ne = append(ne, sx.L(sx.Int(idx[i]), npmSxVKey(n.Version), npmSxVKey(e.Req)))
 		}
 	}
 	npmSxSort(ne)
-	return sx.L(sx.Sym("ok"), sx.L(tn...), sx.L(es...), sx.L(ne...), npmSxStrings(npmGraphErrItems(g)))
+	return sx.L(sx.Sym("ok"), sx.L(tn...), sx.L(es...), sx.L(ne...), sx.Bool(g.Error != ""),
+		sx.B(npmMark), sx.L(diag...), sx.B(g.Error), sx.L())
 }
 
-// ---------------------------------------------------------------- direct npmOracle (C06 clauses)
+// ---------------------------------------------------------------- direct oracle (C06 clauses)
 
 type npmOracle struct {
 	lc         *resolve.LocalClient
@@ -765,11 +810,35 @@ func (o *npmOracle) run() {
 	}
 	st["graph_nodes"] = len(g.Nodes)
 	st["edges"] = len(g.Edges)
-	st["gerr_items"] = len(npmGraphErrItems(g))
+	if g.Error != "" {
+		st["gerr"] = 1
+	}
+
+	// The edge that created a tree node is the first edge to its graph node: freshness is read
+	// off the install tree, not off the resolver's own Selector label.
+	created := map[resolve.NodeID]int{}
+	labelled := map[resolve.NodeID]bool{}
+	for ei, e := range g.Edges {
+		if _, ok := created[e.To]; !ok {
+			created[e.To] = ei
+		}
+		if e.Type.HasAttr(dep.Selector) {
+			labelled[e.To] = true
+		}
+	}
+	for i, t := range o.tree {
+		if i == 0 || t.Bundled {
+			continue
+		}
+		where := fmt.Sprintf("tree node %s@%s", t.Pkg.Name, t.Version.Version)
+		if _, ok := created[t.ID]; !ok || t.ID == 0 || !labelled[t.ID] {
+			o.fail("pick", where+": no edge to it is marked as the one that selected the version")
+		}
+	}
 
 	// clauses 1, 4, 6 per edge
 	perNode := map[resolve.NodeID][]resolve.Edge{}
-	for _, e := range g.Edges {
+	for ei, e := range g.Edges {
 		perNode[e.From] = append(perNode[e.From], e)
 		fk := g.Nodes[e.From].Version
 		tk := g.Nodes[e.To].Version
@@ -799,7 +868,7 @@ func (o *npmOracle) run() {
 			if fi >= 0 && ti >= 0 && o.nodeLookup(fi, npmLookupName(d)) == ti {
 				lookupAny = true
 			}
-			if withSel && !plain && ti >= 0 && !o.tree[ti].Bundled {
+			if created[e.To] == ei && ti > 0 && !o.tree[ti].Bundled {
 				fresh = true
 				want, ph := o.expectedPick(d)
 				wantHow = ph
@@ -847,9 +916,7 @@ func (o *npmOracle) run() {
 
 	// clause 2: every expected requirement of every graph node has an edge or an error
 	for i, n := range g.Nodes {
-		for _, ne := range n.Errors {
-			st[fmt.Sprintf("nodeerr:%d", npmNodeErrKind(ne.Error))]++
-		}
+		st["nodeerr"] += len(n.Errors)
 		for _, d := range npmExpectedRequirements(o.lc, n.Version) {
 			done := false
 			for _, ne := range n.Errors {
@@ -907,17 +974,93 @@ func (o *npmOracle) run() {
 			}
 		}
 	}
+	// ... and a package sits in its directory under its own name (aliases are the alias map)
+	for _, t := range o.tree {
+		for k, c := range t.Children {
+			if o.tree[c].Pkg.Name != k {
+				o.fail("unique_name", fmt.Sprintf("%s@%s is filed as %s in the directory of %s@%s",
+					o.tree[c].Pkg.Name, o.tree[c].Version.Version, k, t.Pkg.Name, t.Version.Version))
+			}
+		}
+	}
+
+	// input distribution: dependency cycles (a strongly connected component of several graph
+	// nodes) and diamond conflicts (one package installed at two depths of the tree)
+	if npmHasCycle(len(g.Nodes), g.Edges) {
+		st["cycle"] = 1
+	}
+	depths := map[string]int{}
+	for i, t := range o.tree {
+		if i == 0 {
+			continue
+		}
+		if d0, ok := depths[t.Pkg.Name]; ok && d0 != depth[i] {
+			st["diamond"] = 1
+		}
+		depths[t.Pkg.Name] = depth[i]
+	}
+}
+
+// npmHasCycle reports whether some strongly connected component has more than one node (Tarjan).
+func npmHasCycle(n int, edges []resolve.Edge) bool {
+	adj := make([][]int, n)
+	for _, e := range edges {
+		if e.From != e.To {
+			adj[e.From] = append(adj[e.From], int(e.To))
+		}
+	}
+	index, low, on := make([]int, n), make([]int, n), make([]bool, n)
+	for i := range index {
+		index[i] = -1
+	}
+	var stack []int
+	next, found := 0, false
+	var visit func(v int)
+	visit = func(v int) {
+		index[v], low[v] = next, next
+		next++
+		stack = append(stack, v)
+		on[v] = true
+		for _, w := range adj[v] {
+			if index[w] < 0 {
+				visit(w)
+				if low[w] < low[v] {
+					low[v] = low[w]
+				}
+			} else if on[w] && index[w] < low[v] {
+				low[v] = index[w]
+			}
+		}
+		if low[v] == index[v] {
+			size := 0
+			for {
+				w := stack[len(stack)-1]
+				stack = stack[:len(stack)-1]
+				on[w] = false
+				size++
+				if w == v {
+					break
+				}
+			}
+			if size > 1 {
+				found = true
+			}
+		}
+	}
+	for v := 0; v < n; v++ {
+		if index[v] < 0 {
+			visit(v)
+		}
+	}
+	return found
 }
 
 var npmStatKeys = []string{"tree_nodes", "max_depth", "nested", "bundled_nodes", "alias_entries", "graph_nodes", "edges",
-	"gerr_items", "requirements", "edge:selector", "edge:reuse", "sat:range", "sat:tag", "sat:star", "sat:slot",
+	"gerr", "requirements", "edge:selector", "edge:reuse", "sat:range", "sat:tag", "sat:star", "sat:slot",
 	"sat:bundled", "pick:latest", "pick:latest-prerelease", "skipped:lookup_dupname", "pick:highest", "pick:skip-deprecated", "pick:all-deprecated",
-	"nodeerr:1", "nodeerr:2", "nodeerr:3"}
+	"nodeerr", "cycle", "diamond", "calls", "retried"}
 
 // ---------------------------------------------------------------- handlers
-
-// npmTimeout bounds one resolution (the install loop is not known to terminate).
-const npmTimeout = 400 * time.Millisecond
 
 func npmRec(arg sx.V) sx.V {
 	lc, hasDerived := npmBuildUniverse(arg.Nth(0))
@@ -931,12 +1074,12 @@ func npmRec(arg sx.V) sx.V {
 	first := npmResolve(rec, root)
 	obs := npmObservable(first).String()
 	nondet := 0
-	for i := 1; i < nruns && first.status != "timeout"; i++ {
+	for i := 1; i < nruns && first.status != "timeout" && first.status != "diverged"; i++ {
 		r2 := npmResolve(lc, root)
 		if r2.status == "timeout" {
 			continue // a loaded machine, not a different result
 		}
-		if o2 := npmObservable(r2).String(); o2 != obs {
+		if o2 := npmObservable(r2).String(); npmCompared(o2) != npmCompared(obs) {
 			nondet = 1
 		}
 	}
@@ -951,6 +1094,10 @@ func npmRec(arg sx.V) sx.V {
 	}
 	if nondet == 1 {
 		o.fail("nondeterministic", "two resolutions of the same root on the same client differ")
+	}
+	o.stats["calls"] = first.calls
+	if first.retried {
+		o.stats["retried"] = 1
 	}
 	var stats []sx.V
 	for _, k := range npmStatKeys {
@@ -977,11 +1124,11 @@ func npmTable(arg sx.V) sx.V {
 	tc := npmNewTableClient(l[2], l[3], l[4])
 	r1 := npmResolve(tc, root)
 	first := npmObservable(r1)
-	if r1.status == "timeout" {
+	if r1.status == "timeout" || r1.status == "diverged" {
 		return first
 	}
 	if r2 := npmResolve(tc, root); r2.status != "timeout" {
-		if second := npmObservable(r2); first.String() != second.String() {
+		if second := npmObservable(r2); npmCompared(first.String()) != npmCompared(second.String()) {
 			return sx.L(sx.Sym("nondeterministic"), first, second)
 		}
 	}
